@@ -3,14 +3,18 @@
 
   Transliterates
     mysql/variables.go            SessionVariables: Set, Delete, SetEqualsWith,
-                                  GetUnusedAndClear, Reset, the verify functions
+                                  GetUnusedAndClear, keepAcknowledged, Acknowledge,
+                                  RestoreAcknowledged (which replaced `Reset`), the
+                                  verify functions
     backend/direct_connection.go  SetCharset, SetSessionVariables,
                                   SyncSessionVariables, WriteSetStatement (as
                                   repaired by the `fix:` commits: the record is put
                                   back to the acknowledged settings when the backend
                                   rejects the statement; `tx_read_only` is reset
                                   under the name it was set with; a name the
-                                  statement assigns is not reset by it),
+                                  statement assigns is not reset by it; of the two
+                                  spellings of `transaction_read_only` a >= 8.0.3
+                                  backend is sent one assignment only),
                                   appendSetCharset / appendSetVariable /
                                   appendSetVariableToDefault
     proxy/server/executor.go      InitializeSessionVariables, the
@@ -18,8 +22,10 @@
                                   set*SessionVariable
     proxy/server/executor_handle.go  handleSet / handleSetVariable
   plus a backend session (charset, collation, variable ↦ value text; absent =
-  server default) that applies a SET statement atomically or rejects it as a
-  whole, and the system of several clients sharing a small pool.
+  server default) that applies a SET statement atomically — evaluating each
+  value, which may be an expression over literals, user variables, session and
+  global system variables — or rejects it as a whole, and the system of
+  several clients sharing a small pool.
 
   Go maps are association lists read with "last entry wins" (`AMap.get`); `put`
   removes older entries and appends, so the loops of the Go code (whose
@@ -153,10 +159,13 @@ def runVerify : Verify → Val → Res Unit
   | .string, _ => .err "type"
   | .dflt, _ => .ok ()
 
-/-- `SessionVariables`. Only the names of `unused` are ever read. -/
+/-- `SessionVariables`. Only the names of `unused` are ever read.  `acked` is
+    the copy of the variables a backend acknowledged last, put aside at the
+    first change after that acknowledgement (`none` = nothing changed since). -/
 structure SessionVariables where
   variables : AMap Val := []
   unused : AMap Val := []
+  acked : Option (AMap Val) := none
   deriving Repr, Inhabited, DecidableEq
 
 /-- `variableVerifyFuncMap` as (name, verifier); the driver passes the table
@@ -165,20 +174,40 @@ abbrev VerifyMap := AMap Verify
 
 namespace SessionVariables
 
-/-- `Set(key, value)`: verify with the function of the formatted name, then
-    store (an existing `Variable` keeps its verify function, which is the one
-    of the same name). -/
+/-- `keepAcknowledged()`: the first change after an acknowledgement puts a
+    copy of the variables aside. -/
+def keepAcknowledged (s : SessionVariables) : SessionVariables :=
+  { s with acked := some (s.acked.getD s.variables) }
+
+/-- `Set(key, value)`: `keepAcknowledged`, then verify with the function of the
+    formatted name, then store (an existing `Variable` keeps its verify
+    function, which is the one of the same name).  (When the verify function
+    refuses the value the Go code has already put the copy aside; that copy
+    equals the variables, so keeping or dropping it cannot be told apart, and
+    the model returns the error alone.) -/
 def set (vm : VerifyMap) (s : SessionVariables) (key : String) (value : Val) : Res SessionVariables :=
   let formatKey := formatVariableName key
   let verify := (AMap.get vm formatKey).getD .dflt
   match runVerify verify value with
-  | .ok () => .ok { s with variables := AMap.put s.variables formatKey value }
+  | .ok () => .ok { s.keepAcknowledged with variables := AMap.put s.variables formatKey value }
   | .err k => .err k
   | .panic => .panic
 
 /-- `Delete(key)`. -/
 def delete (s : SessionVariables) (key : String) : SessionVariables :=
-  { s with variables := AMap.del s.variables (formatVariableName key) }
+  { s.keepAcknowledged with variables := AMap.del s.variables (formatVariableName key) }
+
+/-- `Acknowledge()`: a backend has accepted the variables as they are now. -/
+def acknowledge (s : SessionVariables) : SessionVariables := { s with acked := none }
+
+/-- `RestoreAcknowledged()`: back to what a backend acknowledged last. -/
+def restoreAcknowledged (s : SessionVariables) : SessionVariables :=
+  match s.acked with
+  | some a => { s with variables := a, acked := none }
+  | none => s
+
+/-- The variables a backend acknowledged last. -/
+def ackedVariables (s : SessionVariables) : AMap Val := s.acked.getD s.variables
 
 /-- Body of the first loop of `SetEqualsWith`: copy one destination variable
     if it differs or is missing; the flag records a change. -/
@@ -195,27 +224,19 @@ def setEqualsWith (s dst : SessionVariables) : SessionVariables × Bool :=
   if s.variables.isEmpty && !dst.variables.isEmpty then
     ({ s with variables := dst.variables.foldl (fun m p => AMap.put m p.1 p.2) s.variables }, true)
   else if !s.variables.isEmpty && dst.variables.isEmpty then
-    ({ variables := [], unused := s.variables.foldl (fun u p => AMap.put u p.1 p.2) s.unused }, true)
+    ({ s with variables := [], unused := s.variables.foldl (fun u p => AMap.put u p.1 p.2) s.unused }, true)
   else
     -- first loop: copy what differs or is missing
     let r := dst.variables.foldl setEqualsStep (s.variables, false)
     -- second loop: what the destination does not have is no longer used
     let gone := r.1.filter (fun p => !(AMap.has dst.variables p.1))
     let kept := r.1.filter (fun p => AMap.has dst.variables p.1)
-    ({ variables := kept, unused := gone.foldl (fun u p => AMap.put u p.1 p.2) s.unused },
+    ({ s with variables := kept, unused := gone.foldl (fun u p => AMap.put u p.1 p.2) s.unused },
       r.2 || !gone.isEmpty)
 
 /-- `GetUnusedAndClear`. -/
 def getUnusedAndClear (s : SessionVariables) : AMap Val × SessionVariables :=
   (s.unused, { s with unused := [] })
-
-/-- `Reset(err)`: forget every variable without a verify function, and
-    `sql_mode` when the error is "wrong value for variable 'sql_mode'". -/
-def reset (vm : VerifyMap) (s : SessionVariables) (sqlModeErr : Bool) : SessionVariables :=
-  let s1 := { s with variables := s.variables.filter (fun p => AMap.has vm p.1) }
-  if sqlModeErr && AMap.has s1.variables "sql_mode" && AMap.has vm "sql_mode" then
-    delete s1 "sql_mode"
-  else s1
 
 end SessionVariables
 
@@ -232,14 +253,200 @@ structure Tables where
 def Tables.collationName (t : Tables) (id : Nat) : Option String :=
   (t.collations.find? (fun p => p.1 == id)).map (·.2)
 
+/-! ### values that are expressions
+
+A SET statement may assign a value the proxy cannot evaluate (`CONCAT(…)`,
+`@y`, `@@GLOBAL.x`, `a+b`).  The proxy records the text the parser restores
+(`Expr.raw`, `Expr.lowered`) and sends it on; the backend evaluates it when it
+applies the statement.  `parseText`/`evalText` are the part of MySQL the
+backend session of this model has: literals, `NULL`, user variables, session
+and global system variables, `CONCAT` of two arguments and `+`. -/
+
+inductive Expr where
+  | int (i : Int)
+  | str (s : String)
+  | null
+  | uvar (n : String)                 -- @n
+  | svar (explicit : Bool) (n : String)  -- @@n / @@SESSION.n
+  | gvar (n : String)                 -- @@GLOBAL.n
+  | cat (a b : Expr)                  -- CONCAT(a, b)
+  | add (a b : Expr)                  -- a+b
+  deriving DecidableEq, Repr, Inhabited
+
+namespace Expr
+
+/-- `Restore` with `RestoreStringSingleQuotes` (user variables, `sql_mode`,
+    string variables set to an expression). -/
+def raw : Expr → String
+  | .int i => toString i
+  | .str s => "'" ++ s ++ "'"
+  | .null => "NULL"
+  | .uvar n => "@" ++ n
+  | .svar false n => "@@" ++ n
+  | .svar true n => "@@SESSION." ++ n
+  | .gvar n => "@@GLOBAL." ++ n
+  | .cat a b => "CONCAT(" ++ a.raw ++ ", " ++ b.raw ++ ")"
+  | .add a b => a.raw ++ "+" ++ b.raw
+
+/-- `Restore` with `RestoreKeyWordLowercase | RestoreNameLowercase`, then
+    `strings.ToLower` (`getVariableExprResult`). -/
+def lowered : Expr → String
+  | .int i => toString i
+  | .str s => lower s
+  | .null => "null"
+  | .uvar n => "@" ++ lower n
+  | .svar false n => "@@" ++ lower n
+  | .svar true n => "@@session." ++ lower n
+  | .gvar n => "@@global." ++ lower n
+  | .cat a b => "concat(" ++ a.lowered ++ ", " ++ b.lowered ++ ")"
+  | .add a b => a.lowered ++ "+" ++ b.lowered
+
+/-- A literal: what the proxy can take as it stands. -/
+def isLit : Expr → Bool
+  | .int _ | .str _ | .null => true
+  | _ => false
+
+/-- The value does not depend on the session the expression is evaluated in. -/
+def sessionFree : Expr → Bool
+  | .uvar _ | .svar _ _ => false
+  | .cat a b | .add a b => a.sessionFree && b.sessionFree
+  | _ => true
+
+end Expr
+
+def isNameChar (c : Char) : Bool := c.isAlphanum || c == '_'
+
+/-- `"abc…"` is a prefix: the rest. -/
+def stripPrefix (pre : List Char) (cs : List Char) : Option (List Char) :=
+  if pre.isPrefixOf cs then some (cs.drop pre.length) else none
+
+def parseName (cs : List Char) (mk : String → Expr) : Option (Expr × List Char) :=
+  let n := cs.takeWhile isNameChar
+  if n.isEmpty then none else some (mk (String.ofList n), cs.drop n.length)
+
+/-- Sum of terms; a term is a literal, `NULL`, a variable or `CONCAT(e, e)`. -/
+def parseE : Nat → List Char → Option (Expr × List Char)
+  | 0, _ => none
+  | fuel + 1, cs =>
+    let term : Option (Expr × List Char) :=
+      match cs with
+      | '\'' :: r =>
+        let body := r.takeWhile (· != '\'')
+        match r.drop body.length with
+        | '\'' :: r' => some (.str (String.ofList body), r')
+        | _ => none
+      | '@' :: '@' :: r =>
+        match stripPrefix "GLOBAL.".toList r with
+        | some r' => parseName r' .gvar
+        | none =>
+          match stripPrefix "SESSION.".toList r with
+          | some r' => parseName r' (.svar true)
+          | none => parseName r (.svar false)
+      | '@' :: r => parseName r .uvar
+      | 'N' :: 'U' :: 'L' :: 'L' :: r =>
+        match r with
+        | c :: _ => if isNameChar c then none else some (.null, r)
+        | [] => some (.null, r)
+      | 'C' :: 'O' :: 'N' :: 'C' :: 'A' :: 'T' :: '(' :: r =>
+        match parseE fuel r with
+        | some (a, ',' :: ' ' :: r1) =>
+          match parseE fuel r1 with
+          | some (b, ')' :: r2) => some (.cat a b, r2)
+          | _ => none
+        | _ => none
+      | _ =>
+        let (neg, ds0) := match cs with
+          | '-' :: r => (true, r)
+          | _ => (false, cs)
+        let ds := ds0.takeWhile Char.isDigit
+        if ds.isEmpty then none
+        else
+          let n : Int := digitsVal ds
+          some (.int (if neg then -n else n), ds0.drop ds.length)
+    match term with
+    | some (a, '+' :: r) =>
+      match parseE fuel r with
+      | some (b, r') => some (.add a b, r')
+      | none => none
+    | other => other
+
+/-- The expression a value text is, when it is one. -/
+def parseText (t : String) : Option Expr :=
+  match parseE (t.length + 1) t.toList with
+  | some (e, []) => some e
+  | _ => none
+
+/-- A value of the backend's little expression language. -/
+inductive V where
+  | int (i : Int)
+  | str (s : String)
+  | null
+  deriving DecidableEq, Repr, Inhabited
+
+def V.text : V → String
+  | .int i => toString i
+  | .str s => "'" ++ s ++ "'"
+  | .null => "NULL"
+
+def V.plain : V → String
+  | .int i => toString i
+  | .str s => s
+  | .null => ""
+
+/-- The value a stored variable text stands for (a bare word is a string). -/
+def valOfText (t : String) : V :=
+  match parseText t with
+  | some (.int i) => .int i
+  | some (.str s) => .str s
+  | some .null => .null
+  | _ => .str t
+
+def lookupV (m : AMap String) (k : String) : Option V := (AMap.get m k).map valOfText
+
+/-- Evaluation in a session with variables `vars` on a server with global
+    variables `g`. -/
+def evalExpr (g vars : AMap String) : Expr → V
+  | .int i => .int i
+  | .str s => .str s
+  | .null => .null
+  | .uvar n => (lookupV vars ("@" ++ n)).getD .null
+  | .svar _ n => ((lookupV vars n).or (lookupV g n)).getD .null
+  | .gvar n => (lookupV g n).getD .null
+  | .cat a b =>
+    match evalExpr g vars a, evalExpr g vars b with
+    | .null, _ => .null
+    | _, .null => .null
+    | x, y => .str (x.plain ++ y.plain)
+  | .add a b =>
+    match evalExpr g vars a, evalExpr g vars b with
+    | .int x, .int y => .int (x + y)
+    | _, _ => .null
+
+/-- What a session stores when it is assigned the text `t`: a literal and
+    anything that is not an expression of the little language is kept as
+    written, an expression is replaced by its value. -/
+def evalText (g vars : AMap String) (t : String) : String :=
+  match parseText t with
+  | some e => if e.isLit then t else (evalExpr g vars e).text
+  | none => t
+
+/-- The value of the text does not depend on the session it is evaluated in
+    (no user variable, no session system variable). -/
+def sessionFreeB (t : String) : Bool :=
+  match parseText t with
+  | some e => e.sessionFree
+  | none => true
+
 /-! ### backend session -/
 
 /-- What a MySQL session holds: absent variable = server default. Values are
-    kept as the text the SET statement assigned. -/
+    kept as the text of the value the SET statement assigned.  `globals` are the
+    server's global variables (never changed: the proxy refuses SET GLOBAL). -/
 structure Backend where
   charset : String
   collation : String
   vars : AMap String := []
+  globals : AMap String := []
   deriving Repr, Inhabited, DecidableEq
 
 /-- One element of a SET statement. -/
@@ -248,7 +455,7 @@ inductive Item where
   | assign (key text : String)
   deriving Repr, DecidableEq, Inhabited
 
-/-- Does assigning `text` to `key` put the variable back to its default?
+/-- Does a variable that has been given the value `text` stand at its default?
     (`x = DEFAULT`, and `@u = NULL` for user variables.) -/
 def isReset (key text : String) : Bool :=
   lower text == "default" || (isUserVarName key && text == "NULL")
@@ -256,8 +463,9 @@ def isReset (key text : String) : Bool :=
 def Backend.applyItem (b : Backend) : Item → Backend
   | .names cs coll => { b with charset := cs, collation := coll }
   | .assign k txt =>
-    if isReset k txt then { b with vars := AMap.del b.vars k }
-    else { b with vars := AMap.put b.vars k txt }
+    let v := evalText b.globals b.vars txt
+    if isReset k v then { b with vars := AMap.del b.vars k }
+    else { b with vars := AMap.put b.vars k v }
 
 /-- A SET statement is applied left to right, as a whole. -/
 def Backend.apply (b : Backend) (items : List Item) : Backend := items.foldl Backend.applyItem b
@@ -338,16 +546,23 @@ def appendSetVariableToDefault (buf : String) (key : String) : String :=
 def wireKey (v803 : Bool) (key : String) : String :=
   if key == "tx_read_only" && v803 then "transaction_read_only" else key
 
+/-- The variables of `vars` that `WriteSetStatement` writes as assignments: a
+    variable whose backend name differs from its own is left out when the
+    record also holds a variable of that backend name (which is then the one
+    that is sent). -/
+def sentVars (v803 : Bool) (vars : AMap Val) : AMap Val :=
+  vars.filter (fun p => !(wireKey v803 p.1 != p.1 && AMap.has vars (wireKey v803 p.1)))
+
 /-- The settings `vars` as the assignments a backend with flag `v803` is sent:
     (backend name, value text). -/
 def wireVars (v803 : Bool) (vars : AMap Val) : AMap String :=
-  vars.map (fun p => (wireKey v803 p.1, valueText (wireKey v803 p.1) p.2))
+  (sentVars v803 vars).map (fun p => (wireKey v803 p.1, valueText (wireKey v803 p.1) p.2))
 
 /-- The assignments of the statement `WriteSetStatement` builds, as
-    (backend name, value text): every recorded variable, then a reset for every
-    unused one whose backend name the statement does not assign. -/
+    (backend name, value text): every recorded variable that is sent, then a
+    reset for every unused one whose backend name the statement does not assign. -/
 def setAssigns (c : Conn) (unused : AMap Val) : AMap String :=
-  let assigned := c.sv.variables.map (fun p => wireKey c.v803 p.1)
+  let assigned := (sentVars c.v803 c.sv.variables).map (fun p => wireKey c.v803 p.1)
   wireVars c.v803 c.sv.variables
     ++ (unused.filter (fun p => !(assigned.contains (wireKey c.v803 p.1)))).map
         (fun p => (wireKey c.v803 p.1, defaultText (wireKey c.v803 p.1)))
@@ -358,9 +573,9 @@ def setItems (c : Conn) (collName : String) (unused : AMap Val) : List Item :=
 
 /-- The text `WriteSetStatement` builds. -/
 def setText (c : Conn) (collName : String) (unused : AMap Val) : String :=
-  let assigned := c.sv.variables.map (fun p => wireKey c.v803 p.1)
+  let assigned := (sentVars c.v803 c.sv.variables).map (fun p => wireKey c.v803 p.1)
   let buf := appendSetCharset "" c.charset collName
-  let buf := c.sv.variables.foldl (fun b p => appendSetVariable b (wireKey c.v803 p.1) p.2) buf
+  let buf := (sentVars c.v803 c.sv.variables).foldl (fun b p => appendSetVariable b (wireKey c.v803 p.1) p.2) buf
   (unused.filter (fun p => !(assigned.contains (wireKey c.v803 p.1)))).foldl
     (fun b p => appendSetVariableToDefault b (wireKey c.v803 p.1)) buf
 
@@ -420,10 +635,11 @@ def InitRes.isOk : InitRes → Bool
 
 /-- `InitializeSessionVariables(pc, charset, collation, sessionVariables)`
     (proxy/server/executor.go) with the backend reacting with `f` to the SET
-    statement, if one is sent.  On a failed statement the client's variables
-    are `Reset`; the connection stays in use (`WriteSetStatement` has put its
-    record back to what the backend holds). -/
-def initializeSessionVariables (t : Tables) (vm : VerifyMap) (s : Slot) (cl : Client) (f : Fault) :
+    statement, if one is sent.  When the settings are in place the client's
+    variables are acknowledged; on a failed statement they are put back to
+    those acknowledged last (`RestoreAcknowledged`); the connection stays in use
+    (`WriteSetStatement` has put its record back to what the backend holds). -/
+def initializeSessionVariables (t : Tables) (s : Slot) (cl : Client) (f : Fault) :
     Slot × Client × InitRes :=
   match setCharset t s.conn cl.charset cl.collation with
   | (_, none) => (s, cl, .errCharset)
@@ -431,15 +647,18 @@ def initializeSessionVariables (t : Tables) (vm : VerifyMap) (s : Slot) (cl : Cl
     let r := setSessionVariables c1 cl.vars
     if charsetChanged || r.2 then
       match writeSetStatement t r.1 s.be f with
-      | (c3, b3, .ok stmt) => ({ conn := c3, be := b3 }, cl, .ok (some stmt))
-      | (c3, b3, .rejected stmt sm) =>
-        ({ conn := c3, be := b3 }, { cl with vars := cl.vars.reset vm sm }, .errSet (some stmt))
+      | (c3, b3, .ok stmt) => ({ conn := c3, be := b3 }, { cl with vars := cl.vars.acknowledge }, .ok (some stmt))
+      | (c3, b3, .rejected stmt _) =>
+        ({ conn := c3, be := b3 }, { cl with vars := cl.vars.restoreAcknowledged }, .errSet (some stmt))
       | (c3, b3, .invalidCollation) =>
-        ({ conn := c3, be := b3 }, { cl with vars := cl.vars.reset vm false }, .errSet none)
-    else ({ conn := r.1, be := s.be }, cl, .ok none)
+        ({ conn := c3, be := b3 }, { cl with vars := cl.vars.restoreAcknowledged }, .errSet none)
+    else ({ conn := r.1, be := s.be }, { cl with vars := cl.vars.acknowledge }, .ok none)
 
 /-- `SyncSessionVariables(frontend)` as `getTransactionConn` uses it: on an
-    error the connection is closed (and recycled). -/
+    error the connection is closed (and recycled).  The client's record is
+    neither acknowledged nor put back on this path (in the real code the
+    statement of the transaction is prepared by `InitializeSessionVariables`
+    on the same connection right after). -/
 def syncSessionVariables (t : Tables) (s : Slot) (cl : Client) (f : Fault) : Slot × InitRes :=
   let r := setSessionVariables s.conn cl.vars
   if r.2 then
@@ -451,11 +670,14 @@ def syncSessionVariables (t : Tables) (s : Slot) (cl : Client) (f : Fault) : Slo
 
 /-! ### proxy/server/executor_handle.go: SET handling -/
 
-/-- A literal of a SET statement as the parser hands it over. -/
+/-- The value of a SET assignment as the parser hands it over: a literal, or
+    an expression (`expr e`: `e` has a function call, a variable or an operator
+    on top — a value only the backend can compute). -/
 inductive Lit where
   | int (i : Int)        -- 5, -5
   | word (w : String)    -- ON, DEFAULT, NULL, utf8
   | str (s : String)     -- 'text' (no quote or backslash inside)
+  | expr (e : Expr)      -- CONCAT('a', @y), @@GLOBAL.x, @x+1
   deriving Repr, DecidableEq, Inhabited
 
 /-- `getVariableExprResult`: restored without quotes, lower-cased. -/
@@ -463,6 +685,7 @@ def varResult : Lit → String
   | .int i => toString i
   | .word w => lower w
   | .str s => lower s
+  | .expr e => e.lowered
 
 /-- `getSqlModeExprResult` / `getUserVariableExprResult`: quotes kept, case
     kept (`NULL` and `DEFAULT` are restored in upper case). -/
@@ -470,6 +693,16 @@ def rawResult : Lit → String
   | .int i => toString i
   | .word w => if lower w == "null" then "NULL" else if lower w == "default" then "DEFAULT" else w
   | .str s => "'" ++ s ++ "'"
+  | .expr e => e.raw
+
+/-- `isLiteralExpr`. -/
+def Lit.isLiteral : Lit → Bool
+  | .expr _ => false
+  | _ => true
+
+/-- `getStringVariableExprResult`: a literal as a string without quotes in
+    lower case, an expression as it is written (a `UserVariablesType`). -/
+def strResult (l : Lit) : Val := if l.isLiteral then .str (varResult l) else .user (rawResult l)
 
 /-- One `ast.VariableAssignment`. `name` is `v.Name` ("SetNAMES" for SET NAMES). -/
 structure Assign where
@@ -504,10 +737,13 @@ def setIntSessionVariable (cfg : Cfg) (cl : Client) (name valueStr : String) : R
     | none => .err "parse-int"
     | some v => liftSet cl (cl.vars.set cfg.verifyMap name (.int v))
 
-/-- `setStringSessionVariable`. -/
-def setStringSessionVariable (cfg : Cfg) (cl : Client) (name valueStr : String) : Res Client :=
-  if lower valueStr == "default" then .ok { cl with vars := cl.vars.delete name }
-  else liftSet cl (cl.vars.set cfg.verifyMap name (.str valueStr))
+/-- `setStringSessionVariable` (only a Go `string` can ask for the default). -/
+def setStringSessionVariable (cfg : Cfg) (cl : Client) (name : String) (value : Val) : Res Client :=
+  match value with
+  | .str valueStr =>
+    if lower valueStr == "default" then .ok { cl with vars := cl.vars.delete name }
+    else liftSet cl (cl.vars.set cfg.verifyMap name value)
+  | _ => liftSet cl (cl.vars.set cfg.verifyMap name value)
 
 /-- `setUserSessionVariable`: the value is a `UserVariablesType`, so the
     `valueStr.(string)` test never succeeds and nothing is ever deleted; the
@@ -522,62 +758,92 @@ def setUserSessionVariable (cfg : Cfg) (cl : Client) (name : String) (value : St
 def getOnOffVariable (v : String) : Option String :=
   if v == "1" || v == "on" then some "1" else if v == "0" || v == "off" then some "0" else none
 
-/-- `handleSetVariable` (the cases that touch the session settings; `autocommit`
-    and the general-log switch are not part of this model). -/
-def handleSetVariable (cfg : Cfg) (cl : Client) (v : Assign) : Res Client :=
-  if v.isGlobal then .err "global" else
-  let name := lower v.name
-  if name == "character_set_results" || name == "character_set_client" || name == "character_set_connection" then
-    let charset := varResult v.value
-    if charset == "null" then .ok cl
-    else if charset == "default" then .ok { cl with charset := cfg.defaultCharset, collation := cfg.defaultCollation }
-    else liftSet cl (cl.vars.set cfg.verifyMap name (.str charset))
-  else if name == "group_concat_max_len" then setIntSessionVariable cfg cl "group_concat_max_len" (varResult v.value)
-  else if name == "lock_wait_timeout" then setIntSessionVariable cfg cl name (varResult v.value)
-  else if name == "setnames" then
-    let charset0 := varResult v.value
-    let charset := if charset0 == "default" then cfg.defaultCharset else charset0
-    match v.extend with
-    | some e =>
-      let collationName := varResult e
-      match AMap.get cfg.tables.collationNames collationName with
+/-- The `case` of the `switch name` in `handleSetVariable` that a (lower-cased)
+    variable name selects. -/
+inductive SetCase where
+  | characterSet | groupConcatMaxLen | lockWaitTimeout | setNames | sqlMode | sqlSafeUpdates | timeZone
+  | maxAllowedPacket | ignored | sqlSelectLimit | transaction | txReadOnly | dflt
+  deriving DecidableEq, Repr, Inhabited
+
+def setCase (name : String) : SetCase :=
+  if name == "character_set_results" || name == "character_set_client" || name == "character_set_connection" then .characterSet
+  else if name == "group_concat_max_len" then .groupConcatMaxLen
+  else if name == "lock_wait_timeout" then .lockWaitTimeout
+  else if name == "setnames" then .setNames
+  else if name == "sql_mode" then .sqlMode
+  else if name == "sql_safe_updates" then .sqlSafeUpdates
+  else if name == "time_zone" then .timeZone
+  else if name == "max_allowed_packet" then .maxAllowedPacket
+  else if name == "wait_timeout" || name == "interactive_timeout" || name == "net_write_timeout" || name == "net_read_timeout" then .ignored
+  else if name == "sql_select_limit" then .sqlSelectLimit
+  else if name == "transaction" then .transaction
+  else if name == "tx_read_only" || name == "transaction_read_only" then .txReadOnly
+  else .dflt
+
+/-- `SET NAMES charset [COLLATE collation]`. -/
+def handleSetNames (cfg : Cfg) (cl : Client) (v : Assign) : Res Client :=
+  let charset0 := varResult v.value
+  let charset := if charset0 == "default" then cfg.defaultCharset else charset0
+  match v.extend with
+  | some e =>
+    let collationName := varResult e
+    match AMap.get cfg.tables.collationNames collationName with
+    | none => .err "unknown-charset"
+    | some cid =>
+      match AMap.get cfg.tables.collationNameToCharset collationName with
       | none => .err "unknown-charset"
-      | some cid =>
-        match AMap.get cfg.tables.collationNameToCharset collationName with
-        | none => .err "unknown-charset"
-        | some toCharset =>
-          if toCharset != charset then .err "unknown-charset"
-          else .ok { cl with charset := charset, collation := cid }
-    | none =>
-      match AMap.get cfg.tables.charsetIds charset with
-      | none => .err "unknown-charset"
-      | some cid => .ok { cl with charset := charset, collation := cid }
-  else if name == "sql_mode" then setStringSessionVariable cfg cl "sql_mode" (rawResult v.value)
-  else if name == "sql_safe_updates" then
-    match getOnOffVariable (varResult v.value) with
-    | none => .err "wrong-value"
-    | some x => setIntSessionVariable cfg cl "sql_safe_updates" x
-  else if name == "time_zone" then setStringSessionVariable cfg cl "time_zone" (varResult v.value)
-  else if name == "max_allowed_packet" then .err "read-only"
-  else if name == "wait_timeout" || name == "interactive_timeout" || name == "net_write_timeout" || name == "net_read_timeout" then .ok cl
-  else if name == "sql_select_limit" then setIntSessionVariable cfg cl "sql_select_limit" (varResult v.value)
-  else if name == "transaction" then .err "set-transaction"
-  else if name == "tx_read_only" || name == "transaction_read_only" then
-    match getOnOffVariable (varResult v.value) with
-    | none => .err "wrong-value"
-    | some x =>
-      if name == "tx_read_only" && cfg.proxy803 then setIntSessionVariable cfg cl "transaction_read_only" x
-      else setIntSessionVariable cfg cl name x
-  else if !v.isSystem && !v.isGlobal then setUserSessionVariable cfg cl name (rawResult v.value)
+      | some toCharset =>
+        if toCharset != charset then .err "unknown-charset"
+        else .ok { cl with charset := charset, collation := cid }
+  | none =>
+    match AMap.get cfg.tables.charsetIds charset with
+    | none => .err "unknown-charset"
+    | some cid => .ok { cl with charset := charset, collation := cid }
+
+/-- The `default:` case: a user variable, or a variable the namespace allows. -/
+def handleSetOther (cfg : Cfg) (cl : Client) (name : String) (v : Assign) : Res Client :=
+  if !v.isSystem && !v.isGlobal then setUserSessionVariable cfg cl name (rawResult v.value)
   else
     match AMap.get cfg.allowed name with
     | some "int" => setIntSessionVariable cfg cl name (varResult v.value)
-    | some "string" => setStringSessionVariable cfg cl name (varResult v.value)
+    | some "string" => setStringSessionVariable cfg cl name (strResult v.value)
     | some "bool" =>
       match getOnOffVariable (varResult v.value) with
       | none => .err "wrong-value"
       | some x => setIntSessionVariable cfg cl name x
     | _ => .ok cl    -- unsupported variables are ignored (and logged)
+
+/-- `handleSetVariable` (the cases that touch the session settings; `autocommit`
+    and the general-log switch are not part of this model). -/
+def handleSetVariable (cfg : Cfg) (cl : Client) (v : Assign) : Res Client :=
+  if v.isGlobal then .err "global" else
+  let name := lower v.name
+  match setCase name with
+  | .characterSet =>
+    let charset := varResult v.value
+    if charset == "null" then .ok cl
+    else if charset == "default" then .ok { cl with charset := cfg.defaultCharset, collation := cfg.defaultCollation }
+    else liftSet cl (cl.vars.set cfg.verifyMap name (strResult v.value))
+  | .groupConcatMaxLen => setIntSessionVariable cfg cl "group_concat_max_len" (varResult v.value)
+  | .lockWaitTimeout => setIntSessionVariable cfg cl name (varResult v.value)
+  | .setNames => handleSetNames cfg cl v
+  | .sqlMode => setStringSessionVariable cfg cl "sql_mode" (.str (rawResult v.value))
+  | .sqlSafeUpdates =>
+    match getOnOffVariable (varResult v.value) with
+    | none => .err "wrong-value"
+    | some x => setIntSessionVariable cfg cl "sql_safe_updates" x
+  | .timeZone => setStringSessionVariable cfg cl "time_zone" (.str (varResult v.value))
+  | .maxAllowedPacket => .err "read-only"
+  | .ignored => .ok cl
+  | .sqlSelectLimit => setIntSessionVariable cfg cl "sql_select_limit" (varResult v.value)
+  | .transaction => .err "set-transaction"
+  | .txReadOnly =>
+    match getOnOffVariable (varResult v.value) with
+    | none => .err "wrong-value"
+    | some x =>
+      if name == "tx_read_only" && cfg.proxy803 then setIntSessionVariable cfg cl "transaction_read_only" x
+      else setIntSessionVariable cfg cl name x
+  | .dflt => handleSetOther cfg cl name v
 
 /-- `handleSet`: the assignments one after the other, stopping at the first
     error (what was assigned before it stays). -/
@@ -635,7 +901,7 @@ def step (cfg : Cfg) (fresh : Fresh) (s : Sys) : Op → Sys × Out
   | .run c k f =>
     match s.clients[c]?, s.slots[k]? with
     | some cl, some sl =>
-      let r := initializeSessionVariables cfg.tables cfg.verifyMap sl cl f
+      let r := initializeSessionVariables cfg.tables sl cl f
       let exec := if r.2.2.isOk then some r.1.be else none
       ({ clients := s.clients.set c r.2.1, slots := s.slots.set k (recycle (fresh k) r.1) }, .run r.2.2 exec)
     | _, _ => (s, .bad)
@@ -656,24 +922,38 @@ def runOps (cfg : Cfg) (fresh : Fresh) : Sys → List Op → Sys × List Out
 
 /-! ### the property's reference semantics -/
 
-/-- The value text a backend session (of a server with flag `v803`) must hold
-    for its variable `k` when the settings are `vars` (`none` = server default). -/
-def expectedVar (v803 : Bool) (vars : AMap Val) (k : String) : Option String :=
+/-- The value text a backend session (of a server with flag `v803` and global
+    variables `g`) must hold for its variable `k` when the settings are `vars`
+    (`none` = server default): the value of what the client set it to.  When both
+    spellings of `transaction_read_only` are set, a ≥ 8.0.3 backend holds the
+    one recorded under its own name (`wireVars`). -/
+def expectedVar (v803 : Bool) (g : AMap String) (vars : AMap Val) (k : String) : Option String :=
   match AMap.get (wireVars v803 vars) k with
-  | some txt => if isReset k txt then none else some txt
+  | some txt =>
+    let v := evalText g [] txt
+    if isReset k v then none else some v
   | none => none
 
-/-- The settings do not use both spellings of the variable that MySQL ≥ 8.0.3
-    knows under one name only (a client that sets both asks for two values of
-    one backend variable). -/
-def AliasFree (v803 : Bool) (vars : AMap Val) : Prop :=
-  v803 = true → ¬ (AMap.has vars "tx_read_only" = true ∧ AMap.has vars "transaction_read_only" = true)
+/-- The backend variables `bvars` are what the settings `vars` ask for: every
+    variable whose value does not read the session holds that value, and no
+    variable is set that the settings do not mention.  (The value of an
+    expression that reads the session — `@x = @y`, `sql_mode =
+    CONCAT(@@sql_mode, …)` — is whatever the pooled connection made of it: the
+    listed finding `set-expression-reads-session-state`.) -/
+def VarsMatch (v803 : Bool) (g : AMap String) (vars : AMap Val) (bvars : AMap String) : Prop :=
+  ∀ k, match AMap.get (wireVars v803 vars) k with
+    | some txt => sessionFreeB txt = true → AMap.get bvars k = expectedVar v803 g vars k
+    | none => AMap.get bvars k = none
 
 /-- Backend session `b` carries exactly the settings of `cl`
     (for a connection with version flags `coll247`, `v803`). -/
 def Matches (t : Tables) (coll247 v803 : Bool) (b : Backend) (cl : Client) : Prop :=
   b.charset = trimSet ['"', '\'', '`'] cl.charset ∧
   t.collationName (effectiveCollation t coll247 (trimSet ['"', '\'', '`'] cl.charset) cl.collation) = some b.collation ∧
-  ∀ k, AMap.get b.vars k = expectedVar v803 cl.vars.variables k
+  VarsMatch v803 b.globals cl.vars.variables b.vars
+
+/-- No value of the settings reads the session it is evaluated in. -/
+def SessionFreeVars (v803 : Bool) (vars : AMap Val) : Prop :=
+  ∀ k txt, AMap.get (wireVars v803 vars) k = some txt → sessionFreeB txt = true
 
 end GaeaVerif.SessVars
